@@ -110,3 +110,45 @@ func VerifH_C14_VarintBoundary() {
 	vCover("two-byte-prefix-after-next", L == 122 && !first)
 	vCover("one-byte-prefix-after-next", L == 121 && !first)
 }
+
+// VerifH_C14_HeaderSizeBoundary: the reader's starting offset comes from the size of the CARv1
+// header frame; here the header body is 127, 128 or 129 bytes long (one identity root with a
+// 101..103-byte digest), i.e. its own length prefix is one or two bytes. Every Next/SkipNext mix
+// over two sections reports exact metadata on a plain and on a seekable source, CARv1 and CARv2.
+func VerifH_C14_HeaderSizeBoundary() {
+	root := vCidIDN("root", 101+vChoose("rootDigestLen", 3))
+	hdr := vHeaderV1(root)
+	secs := []vSection{vValidSection("s1", 1), vValidSection("s2", 1)}
+	payload := vPayload(hdr, secs)
+	base := 0
+	file := payload
+	if vChoose("v2", 2) == 1 {
+		base = PragmaSize + HeaderSize
+		file = vWrapV2(payload, 0, 0, nil)
+	}
+	var src io.Reader
+	if vChoose("seekable", 2) == 1 {
+		src = &vSeekStream{vStream{data: file}}
+	} else {
+		src = &vStream{data: file}
+	}
+	br, err := NewBlockReader(src)
+	vAssert("open", err == nil)
+	for i := range secs {
+		if vChoose("skip", 2) == 1 {
+			md, err := br.SkipNext()
+			vAssert("skip-ok", err == nil)
+			vAssert("skip-cid", md.Cid.Equals(secs[i].c))
+			vAssert("skip-offset", md.Offset == secs[i].off)
+			vAssert("skip-source-offset", md.SourceOffset == secs[i].off+uint64(base))
+			vAssert("skip-size", md.Size == uint64(len(secs[i].data)))
+		} else {
+			blk, err := br.Next()
+			vAssert("next-ok", err == nil && blk.Cid().Equals(secs[i].c) && vBytesEq(blk.RawData(), secs[i].data))
+		}
+	}
+	_, err = br.Next()
+	vAssert("then-eof", err == io.EOF)
+	vCover("header-body-128", len(hdr) == 130)
+	vCover("header-body-127", len(hdr) == 128)
+}
